@@ -644,6 +644,49 @@ pub fn enum_op<E: EnumType<B>, B: Backing>(op: &str, arg: &str) -> Reply {
 
 pub type Dispatch = fn(&str, &str, &str, &str) -> Reply;
 
+/// Pseudo module with diagnostic ops that exercise the failure paths of the line protocol
+/// independently of any generated code (extension to PROTOCOL.md; the type field is
+/// ignored): `echo <text>`, `panic <msg>`, `abort`, `stack_overflow`, `hang`,
+/// `alloc <bytes>` (reserve that many bytes in a `Vec` and touch nothing).
+pub const HARNESS_MODULE: &str = "__harness";
+
+#[inline(never)]
+fn recurse_forever(depth: u64, sink: &mut [u8; 256]) -> u64 {
+    let mut local = [0u8; 256];
+    local[(depth % 256) as usize] = sink[((depth + 1) % 256) as usize].wrapping_add(1);
+    let r = recurse_forever(depth + 1, &mut local);
+    sink[0] = local[1];
+    r + local[2] as u64
+}
+
+fn harness_op(op: &str, arg: &str) -> Reply {
+    match op {
+        "echo" => ok(format!("{{\"echo\":{}}}", jstr(arg))),
+        "panic" => panic!("{}", arg),
+        "abort" => std::process::abort(),
+        "stack_overflow" => {
+            let mut sink = [0u8; 256];
+            let r = recurse_forever(0, &mut sink);
+            ok(format!("{{\"unreachable\":{}}}", r))
+        }
+        "hang" => loop {
+            std::thread::sleep(std::time::Duration::from_secs(3600));
+        },
+        "alloc" => {
+            let n: usize = match arg.trim().parse() {
+                Ok(n) => n,
+                Err(_) => return unsupported(format!("bad byte count {:?}", arg)),
+            };
+            let snap = alloc_reset();
+            let v: Vec<u8> = Vec::with_capacity(n);
+            let cap = v.capacity();
+            drop(v);
+            ok(format!("{{\"capacity\":{}{}}}", cap, alloc_report(&snap)))
+        }
+        _ => unsupported(format!("unknown {} op {:?}", HARNESS_MODULE, op)),
+    }
+}
+
 pub fn main_loop(dispatch: Dispatch) {
     std::panic::set_hook(Box::new(|_| {}));
     if let Ok(v) = std::env::var("PDL_HARNESS_ALLOC_MAX_MB") {
@@ -674,6 +717,12 @@ pub fn main_loop(dispatch: Dispatch) {
         let op = parts.next();
         let arg = parts.next().unwrap_or("");
         let reply = match (module, ty, op) {
+            (Some(HARNESS_MODULE), Some(_), Some(op)) => {
+                match catch_unwind(AssertUnwindSafe(|| harness_op(op, arg))) {
+                    Ok(r) => r,
+                    Err(p) => panicked(&panic_message(p)),
+                }
+            }
             (Some(module), Some(ty), Some(op)) => {
                 match catch_unwind(AssertUnwindSafe(|| dispatch(module, ty, op, arg))) {
                     Ok(r) => r,
